@@ -29,7 +29,14 @@ ResolveRemote without addresses), so "once a remote has a known path it never lo
 resolve request that triggered it is queued instead of answered Ok.  Recorded as open known finding
 C22_paths_emptied_by_prune (known_findings.d/C22.json); proposed_fixes/C23.diff repairs it.
 
-Mutation self-test: see the end of this docstring (filled in after the run).
+Self-tests run on 2026-09-22 (private snapshot copy of /repo, patches in seeded/remote/):
+  * `insert_multiple` wakes pending requests whenever the set *was* empty (DESIGN §12: wake on an empty insert)
+    -> VIOLATION sig {kind: reply_mismatch, model: unanswered, real: noresults} at both levels (state and actor), first on
+    the replayed regression scenario resolve([]), resolve([]), item([1]), end(ok);
+  * proposed_fixes/C23.diff applied -> the paths_emptied finding no longer reproduces (0 known-finding hits);
+  * a pruning mutation (Unknown paths pruned) -> VIOLATION {kind: paths_emptied, regime: other}: not absorbed by the
+    known finding, whose match requires the as-written rule's regime;
+  * reverted -> exit 0 with only the KNOWN-FINDING line.
 """
 import json
 
